@@ -156,6 +156,8 @@ def render(ap, rename=None, extra_tail=""):
                 L.append(f"{i2}vacation {fmt_date(a)}" + (f" - {fmt_date(b)}" if b is not None else ""))
             else:
                 L.append(f"{i2}leaves {kind} {fmt_date(a)}" + (f" - {fmt_date(b)}" if b is not None else ""))
+        for (a, mins, txt) in n.get("bookings", []):
+            L.append(f'{i2}booking "busy" {fmt_date(a)} +{txt}')
         L.extend(render_limits(n, i2))
         for k in n.get("kids", []):
             rres(k, i2)
@@ -258,6 +260,9 @@ def working(ap, rnode, t):
         lo, hi = day_interval(a, b)
         if lo <= t < hi:
             return False
+    for (a, mins, _txt) in rnode.get("bookings", []):       # a blocking booking: calendar time from its start
+        if a <= t < a + mins * 60:
+            return False
     tbl = None
     if rnode.get("shift"):
         tbl = ap["shifts"][rnode["shift"]]
@@ -287,6 +292,9 @@ def aligned(ap):
     for _, n in walk(ap["resources"]):
         for (a, b, k) in n.get("leaves", []):
             if a % G or (b or 0) % G:
+                return False
+        for (a, mins, _txt) in n.get("bookings", []):
+            if a % G or (mins * 60) % G:
                 return False
         if n.get("tz") and G > 900:
             z = n["tz"]
@@ -391,6 +399,7 @@ def encode_core(ap, obs_end):
             tbl = ap["shifts"][n["shift"]] if n.get("shift") else n.get("hours")
             offs = [day_interval(a, b) for a, b in ap.get("vac", []) + ap.get("gleaves", [])]
             offs += [day_interval(a, b) for a, b, _k in n.get("leaves", [])]
+            offs += [(a, a + mins * 60) for a, mins, _t in n.get("bookings", [])]
             out += [1, 1 if tbl is not None else 0]
             if tbl is not None:
                 merged = {}
